@@ -3,7 +3,7 @@
     necessary. *)
 From Rumqtt Require Import Log.Spec.
 From Rumqtt Require Import Router.Inv Router.NoPanic Router.ExactInv Router.RetainedReplay Router.Shared Router.SharedRun Router.SharedRunThm
-  Router.Wake Router.WakeCor Router.WakeExamples Router.GroupWake Router.GroupWakeMem Router.GroupWakeThm.
+  Router.WindowExamples Router.Wake Router.WakeCor Router.WakeExamples Router.GroupWake Router.GroupWakeMem Router.GroupWakeThm.
 From Rumqtt Require Import Router.Model Router.RunDefs.
 From Coq Require Import List ZifyBool ZifyN ZifyNat.
 Import ListNotations.
@@ -30,6 +30,12 @@ Definition tview (st : rstate) :=
 
 Lemma cfg0_ok : cfg_ok cfg0 /\ 1 <= cf_max_outgoing cfg0 < B62.
 Proof. vm_compute. repeat split; congruence. Qed.
+
+(** the initial state and the state after [ops], as closed terms *)
+Definition gw_st0 : rstate := force (init cfg0).
+Definition gw_st (ops : list (list oracle * rop)) : rstate := force (run gw_st0 ops).
+Lemma gw_init : init cfg0 = Ok gw_st0.
+Proof. vm_compute. reflexivity. Qed.
 
 (* ------------------------------------------------------------------ quiescence *)
 (** "a" and "b" (clean sessions, QoS 0) share $share/g/t, round robin; "p" publishes ONE
@@ -60,24 +66,25 @@ Proof. vm_compute. repeat split; reflexivity. Qed.
 
 (** [complete_quiescent] applies to it *)
 Example complete_quiescent_applies :
-  exists st0 st g d,
-    init cfg0 = Ok st0 /\ run st0 quiet_ops = Ok st /\
+  let st := gw_st quiet_ops in
+  run gw_st0 quiet_ops = Ok st /\
+  exists g d,
     al_get str_eqb key (r_groups st) = Some g /\ g_clients g = [[97]; [98]] /\
     glog (r_datalog st) key = Some d /\ pos_of (d_log d) (g_cursor g) = end_of (d_log d).
 Proof.
-  destruct (init cfg0) as [st0 | |] eqn:Ei; try (vm_compute in Ei; discriminate).
-  destruct (run st0 quiet_ops) as [st | |] eqn:Er; try (revert Er; vm_compute in Ei; inversion Ei; subst st0; vm_compute; discriminate).
-  pose proof quiet_state as Q. rewrite Ei, Er in Q. destruct Q as (Q1 & _ & Q3 & Q4 & Q5 & Q6).
-  destruct (al_get str_eqb key (r_groups st)) as [g |] eqn:Eg.
-  2: { exfalso. unfold gview in Q1. destruct (r_groups st) as [| [n g0] r]; [discriminate |]. cbn [map fst snd] in Q1.
-       inversion Q1; subst n. cbn [al_get] in Eg. vm_compute in Eg. discriminate. }
+  cbv zeta. assert (Er : run gw_st0 quiet_ops = Ok (gw_st quiet_ops)) by (vm_compute; reflexivity).
+  split; [exact Er |].
+  destruct (al_get str_eqb key (r_groups (gw_st quiet_ops))) as [g |] eqn:Eg; [| vm_compute in Eg; discriminate].
   destruct cfg0_ok as [C1 C2].
-  destruct (complete_quiescent cfg0 st0 quiet_ops st C1 C2 Ei (ops_wf_b _ Q3) Er (bounded_b_spec _ Q4) Q5 (quiescent_b_ok _ _ Q6) key g Eg)
-    as (d & Hd & Hp).
-  exists st0, st, g, d. repeat (split; [assumption || reflexivity |]).
-  split; [| split; assumption].
-  unfold gview in Q1. destruct (r_groups st) as [| [n g0] r]; [discriminate |]. cbn [map fst snd] in Q1.
-  inversion Q1; subst n. cbn [al_get] in Eg. replace (str_eqb key key) with true in Eg by reflexivity. inversion Eg; subst g0. assumption.
+  destruct (complete_quiescent cfg0 gw_st0 quiet_ops (gw_st quiet_ops) C1 C2 gw_init) with (name := key) (g := g) as (d & Hd & Hp).
+  - apply ops_wf_b. vm_compute. reflexivity.
+  - exact Er.
+  - apply bounded_b_spec. vm_compute. reflexivity.
+  - vm_compute. reflexivity.
+  - apply quiescent_b_ok. vm_compute. reflexivity.
+  - exact Eg.
+  - exists g, d. split; [reflexivity |]. split; [| split; assumption].
+    vm_compute in Eg. inversion Eg; subst g. reflexivity.
 Qed.
 
 (* ------------------------------------------------------------------ the turn holder *)
@@ -101,6 +108,34 @@ Example pending_state :
   | _ => False
   end.
 Proof. vm_compute. repeat split; reflexivity. Qed.
+
+(** [turn_holder_runnable] applies to it: the turn holder "a" is connection 0, [Ready] and queued *)
+Example turn_holder_applies :
+  let st := gw_st pending_ops in
+  run gw_st0 pending_ops = Ok st /\
+  exists id t o rq,
+    cli st id = Some [97] /\ slab_get (r_trackers st) id = Some t /\ slab_get (r_obufs st) id = Some o /\
+    In rq (tr_reqs t) /\ dr_filter rq = gpath key /\ dr_group rq = Some key /\
+    ((tr_status t = Ready /\ In id (r_ready st)) \/
+     (tr_status t = Paused InflightFull /\ o_inflight o <> []) \/
+     (tr_status t = Paused Busy /\
+      (In NUnschedule (WindowFrame.out_of st (o_link o)) \/ In (o_link o) (owed_run gw_st0 [] pending_ops)))).
+Proof.
+  cbv zeta. assert (Er : run gw_st0 pending_ops = Ok (gw_st pending_ops)) by (vm_compute; reflexivity).
+  split; [exact Er |].
+  destruct (al_get str_eqb key (r_groups (gw_st pending_ops))) as [g |] eqn:Eg; [| vm_compute in Eg; discriminate].
+  destruct (glog (r_datalog (gw_st pending_ops)) key) as [d |] eqn:Ed; [| vm_compute in Ed; discriminate].
+  destruct cfg0_ok as [C1 C2].
+  apply (turn_holder_runnable cfg0 gw_st0 pending_ops (gw_st pending_ops) C1 C2 gw_init) with (g := g) (d := d).
+  - apply ops_wf_b. vm_compute. reflexivity.
+  - exact Er.
+  - apply bounded_b_spec. vm_compute. reflexivity.
+  - vm_compute. reflexivity.
+  - exact Eg.
+  - exact Ed.
+  - vm_compute in Eg, Ed. inversion Eg; subst g. inversion Ed; subst d. vm_compute. discriminate.
+  - vm_compute in Eg. inversion Eg; subst g. reflexivity.
+Qed.
 
 (* ------------------------------------------------------------------ the rewind strands messages *)
 (** K-C17-rewind and completeness.  "a" (clean_session = false) and "b" share $share/g/t at
@@ -150,20 +185,21 @@ Theorem rewind_strands_messages :
     In (id, rq) (d_waiters d) /\ dr_group rq = Some key /\ cli st id = current_client g /\
     pos_of (d_log d) (g_cursor g) = 0 /\ end_of (d_log d) = 2.
 Proof.
-  destruct (init cfg0) as [st0 | |] eqn:Ei; try (vm_compute in Ei; discriminate).
-  destruct (run st0 strand_ops) as [st | |] eqn:Er; try (revert Er; vm_compute in Ei; inversion Ei; subst st0; vm_compute; discriminate).
-  pose proof strand_state as Q. rewrite Ei, Er in Q. destruct Q as (Q1 & _ & Q3 & Q4 & Q5 & Q6 & _ & Q8).
+  assert (Er : run gw_st0 strand_ops = Ok (gw_st strand_ops)) by (vm_compute; reflexivity).
   destruct cfg0_ok as [C1 C2].
-  assert (X : exists g d id rq,
-             al_get str_eqb key (r_groups st) = Some g /\ g_clients g <> [] /\ glog (r_datalog st) key = Some d /\
-             In (id, rq) (d_waiters d) /\ dr_group rq = Some key /\ cli st id = current_client g /\
-             pos_of (d_log d) (g_cursor g) = 0 /\ end_of (d_log d) = 2).
-  { revert Er. vm_compute in Ei. inversion Ei; subst st0. clear. intros Er. vm_compute in Er. inversion Er; subst st. clear Er.
-    vm_compute. do 4 eexists. repeat split; try reflexivity; try discriminate. left. reflexivity. }
-  destruct X as (g & d & id & rq & X).
-  exists st0, strand_ops, st, g, d, id, rq.
-  split; [exact C1 |]. split; [exact C2 |]. split; [reflexivity |]. split; [exact (ops_wf_b _ Q3) |]. split; [exact Er |].
-  split; [exact (bounded_b_spec _ Q4) |]. split; [exact (quiescent_b_ok _ _ Q5) |]. split; [exact Q6 |]. split; [exact Q8 |]. exact X.
+  destruct (al_get str_eqb key (r_groups (gw_st strand_ops))) as [g |] eqn:Eg; [| vm_compute in Eg; discriminate].
+  destruct (glog (r_datalog (gw_st strand_ops)) key) as [d |] eqn:Ed; [| vm_compute in Ed; discriminate].
+  destruct (d_waiters d) as [| [id rq] w] eqn:Ew; [vm_compute in Ed; inversion Ed; subst d; vm_compute in Ew; discriminate |].
+  exists gw_st0, strand_ops, (gw_st strand_ops), g, d, id, rq.
+  split; [exact C1 |]. split; [exact C2 |]. split; [exact gw_init |].
+  split; [apply ops_wf_b; vm_compute; reflexivity |]. split; [exact Er |].
+  split; [apply bounded_b_spec; vm_compute; reflexivity |].
+  split; [apply quiescent_b_ok; vm_compute; reflexivity |].
+  split; [vm_compute; reflexivity |]. split; [vm_compute; reflexivity |].
+  split; [exact Eg |]. split; [vm_compute in Eg; inversion Eg; subst g; discriminate |].
+  split; [exact Ed |]. split; [rewrite Ew; now left |].
+  vm_compute in Eg, Ed. inversion Eg; subst g. inversion Ed; subst d. vm_compute in Ew. inversion Ew; subst id rq w.
+  repeat split; vm_compute; reflexivity.
 Qed.
 
 (** the next publish releases them: b is sent offsets 0, 1 (again) and 2 *)
